@@ -140,6 +140,16 @@ CHECKS["C05"] = dict(
     technique="CrossHair+z3: solver-partitioned program cells + hidden-base symbolic depths; canonical value equality vs reference VM; plain-data round trip",
     design="§4 C03/C05")
 
+CHECKS["C08"] = dict(
+    text="Solver-partitioned exhaustive exploration of (base pickle x injection mode x argument): 82 bases (generated objects at "
+         "protocols 0-5 incl. 300-entry memos; assembler programs that are headerless, have their own globals/calls/BUILD, sparse memo "
+         "keys 1/2/321987, memo-length collisions, frames) x 15 modes (every helper and flag combination) x 8 arguments. The rewritten "
+         "bytes are loaded by the accelerated unpickler and by the pure-Python one with inert logging stubs: event sequence = base's "
+         "events with the injected call inserted exactly once with exactly the given arguments, result = base object or the call's "
+         "value, VM stack empty at STOP, single trailing STOP, own safety check not LIKELY_SAFE.",
+    technique="CrossHair+z3 solver-partitioned exhaustive fan over base x mode x argument; reference-VM event-sequence oracle (C and pure-Python unpicklers)",
+    design="§4 C08")
+
 NOT_APPLICABLE = {
     "C16": "every observable sits behind zipfile/zlib/torch C-level I/O; symbolic inputs are realised at the first call so the solver has nothing to decide (DESIGN §5); the pickle-level half is covered by C08",
 }
